@@ -45,10 +45,16 @@ var _ = digest.SpecHashSlot // spec functions used by the contracts below
 //@   modifies curDb
 //@   ensures db0: err == nil ==> curDb == 0
 
+//   rootReads / rootOff / rootRun  a log of GetCheckpoint: how often the live root checkpoint was
+//            looked up, and the offset and run id the last successful lookup returned
 //@ func GetCheckpoint(cli, checkpointName, runIds) (cpi, db, err)
 //@   trusted abstract bookkeeping store: scans the databases (in map order) and leaves the connection on an arbitrary one
-//@   modifies curDb, cpDb
+//@   ghost var rootReads mathint = 0
+//@   ghost var rootOff mathint = 0
+//@   ghost var rootRun string
+//@   modifies curDb, cpDb, rootReads, rootOff, rootRun
 //@   ensures found: err == nil ==> cpi != nil && fresh(cpi) && cpDb == db && db >= 0 - 1 && db <= 2147483647
+//@   ensures logged: rootReads == old(rootReads) + 1 && (err == nil ==> rootOff == cpi.Offset && rootRun == cpi.RunId)
 //@   ensures unknown_means_none: err == nil && db == 0 - 1 ==> cpi.RunId == "?"
 
 //@ func SetCheckpoint(cli, cp) (err)
@@ -83,7 +89,7 @@ var _ = digest.SpecHashSlot // spec functions used by the contracts below
 //@   ghost var cpDb mathint = 0 - 2
 //@   ghost var phase mathint = 0
 //@   requires nonnil: outCli != nil
-//@   modifies curDb, cpDb, phase, replayFailed
+//@   modifies curDb, cpDb, phase, replayFailed, rootReads, rootOff, rootRun
 
 // Garbage collection of stale checkpoints: a deletion request is issued only for an entry that
 // is older than the limit and, when the newest entry must be kept, not for the newest one.
@@ -159,3 +165,30 @@ var _ = digest.SpecHashSlot // spec functions used by the contracts below
 //@     invariant closed_prefix: forall s int64 :: startSeq < s && s < nextSeq ==> haskey(seqMap, s)
 //@     invariant entries_keyed_by_their_seq: forall k int64 :: haskey(seqMap, k) ==> seqMap[k] != nil && seqMap[k].UnitSeq == k && k > 0
 //@     invariant offset_tracks: rebuild.UnitSeq > startSeq ==> haskey(seqMap, rebuild.UnitSeq) && rebuild.Offset == seqMap[rebuild.UnitSeq].EndOffset
+
+// ---- the seed of a namespace migration (C17) ---------------------------------------------------
+//@ pred matchRun(runID, runIDs): exists i int :: 0 <= i && i < len(runIDs) && runIDs[i] != "" && runIDs[i] == runID
+//@ func MatchBisyncRunID
+//@   arith int
+//@   properties C17
+//@   modifies nothing
+//@   ensures exact: result <==> matchRun(runID, runIDs)
+//@   loop 1:
+//@     invariant none_so_far: 0 - 1 <= rangeindex && rangeindex < len(runIDs) && (forall j int :: 0 <= j && j <= rangeindex ==> !(runIDs[j] != "" && runIDs[j] == runID))
+
+//@ func time.Time.UnixNano(self) (n)
+//@   trusted library contract
+
+//@ func NewBisyncNamespaceSeedFromRecord
+//@   arith int
+//@   properties C17
+//@   modifies nothing
+//@   ensures carries_the_record: record != nil ==> result1 == nil && result0 != nil && fresh(result0) && result0.Offset == record.EndOffset && result0.RunID == record.RunID && result0.UnitSeq == record.UnitSeq
+//@   ensures nil_is_an_error: record == nil ==> result1 != nil && result0 == nil
+
+//@ func NewBisyncNamespaceSeedFromFrontier
+//@   arith int
+//@   properties C17
+//@   modifies nothing
+//@   ensures carries_the_frontier: frontier != nil ==> result1 == nil && result0 != nil && fresh(result0) && result0.Offset == frontier.Offset && result0.RunID == frontier.RunID && result0.UnitSeq == frontier.UnitSeq
+//@   ensures nil_is_an_error: frontier == nil ==> result1 != nil && result0 == nil
